@@ -202,6 +202,50 @@ c.raises("ValueError")
 c.raises("FileNotFoundError")
 
 
+# ------------------------------------------------------------------------------------------------
+# The command entry point cmd_encrypt.main: dispatches on the subcommand and hands EVERY named argument on unchanged.
+import contracts.C00_common as C00  # noqa: E402
+_EG_ARGS = ("encrypt_script", "firmware", "key_name", "key_id", "context", "hash_alg", "kw_alg", "kms_script", "output_dir")
+_GI_ARGS = ("encrypt_script", "encrypted_firmware", "encrypted_key", "key_id", "kw_alg", "output_dir")
+
+
+def _encrypt_main_setup(it, env):
+    it.call_site_summaries = {"encrypt_and_generate": C00.recording_summary("encrypt_and_generate", ("ValueError", "FileNotFoundError")),
+                              "generate_info": C00.recording_summary("generate_info", ("ValueError", "FileNotFoundError"))}
+
+
+c = Contract(FC, "main", ["C06", "C14"])
+c.param("encrypt_subcommand", Const("encrypt-and-generate"))
+for name, t in (("encrypt_script", Str()), ("firmware", Str()), ("key_name", Str()), ("key_id", KEY_ID), ("context", Opt(Str())), ("hash_alg", Str()), ("kw_alg", Str()),
+                ("kms_script", Str()), ("output_dir", Str()), ("encrypted_firmware", Str()), ("encrypted_key", Str())):
+    c.param(name, t)
+c.variants = [("encrypt-and-generate", {}), ("generate-info", {"encrypt_subcommand": Const("generate-info")})]
+c.call_by_keyword = True
+c.setup = _encrypt_main_setup
+
+
+def _encrypt_main_checks(it, ctx):
+    import z3
+    if ctx.outcome != "return":
+        return None
+    eg, gi = C00.calls_of(it, "encrypt_and_generate"), C00.calls_of(it, "generate_info")
+    if ctx.arg("encrypt_subcommand").conc == "encrypt-and-generate":
+        goals = [("encrypts_once_and_nothing_else", z3.BoolVal(len(eg) == 1 and not gi))]
+        if len(eg) == 1:
+            kw = eg[0][2].get("kwargs")
+            goals += [(f"{n}_handed_on_unchanged", C00.same_value(kw.entries[n].value, ctx.arg(n)) if kw is not None and n in kw.entries else z3.BoolVal(False)) for n in _EG_ARGS]
+        return goals
+    goals = [("generates_info_once_and_nothing_else", z3.BoolVal(len(gi) == 1 and not eg))]
+    if len(gi) == 1:
+        kw = gi[0][2].get("kwargs")
+        goals += [(f"{n}_handed_on_unchanged", C00.same_value(kw.entries[n].value, ctx.arg(n)) if kw is not None and n in kw.entries else z3.BoolVal(False)) for n in _GI_ARGS]
+    return goals
+
+
+c.check("entry", _encrypt_main_checks)
+c.raises("ValueError")
+c.raises("FileNotFoundError")
+
 # ================================================================================================
 # B — bounded stand-in through the CLI entry point `cmd_encrypt.main` with a real key; independent oracle:
 # pycryptodome AES-GCM, hashlib, own CBOR reader.  Labelled bounded; never counted as proved.
